@@ -241,7 +241,8 @@ theorem segPut_same (kvs : Kvs) (m : Name) (v : Tree) (h : segGet kvs m = .ok v)
 /-- a segment as the paths of the property have them: a non-empty plain name, or a literal
 `name[i][j]…` -/
 def GoodSeg (m : Name) : Bool :=
-  m != [] && (!(decide ('[' ∈ m)) || ((parseSeg m).isSome && m.getLast? == some ']'))
+  m != [] && !(decide ('.' ∈ m)) &&
+    (!(decide ('[' ∈ m)) || ((parseSeg m).isSome && m.getLast? == some ']'))
 
 theorem restTruthy_good (rest : List Name) (h : ∀ m ∈ rest, GoodSeg m = true) :
     restTruthy rest none = !(decide (rest = [])) := by
@@ -397,7 +398,9 @@ theorem getK_setK_same (cfg : Cfg) : ∀ (segs : List Name) (kvs kvs' : Kvs) (tv
       simp only [decide_true, Bool.not_true, Bool.false_eq_true, if_false] at hset
       by_cases hb : '[' ∈ m
       · have hg2 : (parseSeg m).isSome = true ∧ m.getLast? = some ']' := by
-          simpa [GoodSeg, hb, goodSeg_ne hgm] using hgm
+          have : ¬'.' ∈ m ∧ (parseSeg m).isSome = true ∧ m.getLast? = some ']' := by
+            simpa [GoodSeg, hb, goodSeg_ne hgm] using hgm
+          exact this.2
         simp only [hb, hg2.2, and_self, if_true] at hset
         obtain ⟨⟨n, is⟩, hp⟩ := Option.isSome_iff_exists.mp hg2.1
         cases hpf : parseFinalIdx (finalIdxText m) with
@@ -830,4 +833,357 @@ theorem wfRoot_run (cfg : Cfg) (hfix : cfg.fixReserved = true) :
     simp only [run, List.foldl_cons]
     exact wfRoot_run cfg hfix r _ (wfRoot_applyOp cfg hfix t op ht (h op (by simp)))
       (fun o ho => h o (by simp [ho]))
+
+theorem goodSeg_nodot {m : Name} (h : GoodSeg m = true) : '.' ∉ m := by
+  intro hd
+  simp [GoodSeg, hd] at h
+
+theorem chain_single (fixed : Bool) (m : Name) (h : '.' ∉ m) : chain fixed m = ⟨[m], none⟩ := by
+  simp [chain, chainF, step, h]
+
+theorem getTop_good (cfg : Cfg) (kvs : Kvs) (m : Name) (h : '.' ∉ m) :
+    getTop cfg kvs m = segGet kvs m := by
+  unfold getTop
+  rw [chain_single _ _ h]
+  simp only [getK]
+  cases segGet kvs m <;> simp
+
+/-- **Deleting a non-empty level is refused**: `KeyError`, nothing changes. -/
+theorem delK_refuses_nonempty (cfg : Cfg) : ∀ (segs : List Name) (kvs : Kvs) (x : Name × Tree) (sub : Kvs),
+    (∀ m ∈ segs, GoodSeg m = true) → segs ≠ [] → getK kvs segs none = .ok (.node (x :: sub)) →
+    delK cfg kvs segs none = (kvs, some .key)
+  | [], _, _, _, _, hne, _ => absurd rfl hne
+  | m :: rest, kvs, x, sub, hgood, _, hget => by
+    have hgm := hgood m (by simp)
+    rw [getK] at hget
+    rw [delK, getTop_good cfg kvs m (goodSeg_nodot hgm)]
+    cases hs : segGet kvs m with
+    | error e => simp [hs] at hget
+    | ok target =>
+      simp only [hs] at hget ⊢
+      by_cases hrest : rest = []
+      · subst hrest
+        simp only [and_self, if_true, Except.ok.injEq] at hget ⊢
+        subst hget
+        rfl
+      · simp only [hrest, false_and, if_false] at hget ⊢
+        cases target with
+        | leaf _ => simp at hget
+        | list _ => simp at hget
+        | node s =>
+          simp only at hget ⊢
+          rw [delK_refuses_nonempty cfg rest s x sub (fun y hy => hgood y (by simp [hy])) hrest hget]
+          simp only [segPut_same kvs m _ hs]
+
+
+/-- **Deleting a leaf (or an empty level) removes it**: afterwards the path is absent. -/
+theorem delK_leaf (cfg : Cfg) : ∀ (segs : List Name) (kvs : Kvs) (v : Tree),
+    wfK P kvs = true → (∀ m ∈ segs, GoodSeg m = true) → (∀ l, segs.getLast? = some l → '[' ∉ l) →
+    segs ≠ [] → getK kvs segs none = .ok v → (∀ x sub, v ≠ .node (x :: sub)) →
+    ∃ kvs', delK cfg kvs segs none = (kvs', none) ∧ getK kvs' segs none = .error .key
+  | [], _, _, _, _, _, hne, _, _ => absurd rfl hne
+  | m :: rest, kvs, v, hw, hgood, hlast, _, hget, hv => by
+    have hgm := hgood m (by simp)
+    rw [getK] at hget
+    rw [delK, getTop_good cfg kvs m (goodSeg_nodot hgm)]
+    cases hs : segGet kvs m with
+    | error e => simp [hs] at hget
+    | ok target =>
+      simp only [hs] at hget ⊢
+      by_cases hrest : rest = []
+      · subst hrest
+        simp only [and_self, if_true, Except.ok.injEq] at hget ⊢
+        subst hget
+        have hb : '[' ∉ m := hlast m (by simp)
+        simp only [segGet, hb, if_false] at hs
+        cases hl : lookupK m kvs with
+        | none => simp [hl] at hs
+        | some w =>
+          simp only [hl, Except.ok.injEq] at hs
+          subst hs
+          refine ⟨eraseK m kvs, ?_, ?_⟩
+          · cases w with
+            | leaf _ => rfl
+            | list _ => rfl
+            | node s =>
+              cases s with
+              | nil => rfl
+              | cons x sub => exact absurd rfl (hv x sub)
+          · rw [getK]
+            simp [segGet, hb, lookupK_eraseK_same m kvs (wfK_nodup hw)]
+      · simp only [hrest, false_and, if_false] at hget ⊢
+        cases target with
+        | leaf _ => simp at hget
+        | list _ => simp at hget
+        | node s =>
+          simp only at hget ⊢
+          have hws : wfK P s = true := by simpa [wfT] using wfT_segGet hw hs
+          have hlast' : ∀ l, rest.getLast? = some l → '[' ∉ l := by
+            intro l hl
+            apply hlast l
+            cases rest with
+            | nil => exact absurd rfl hrest
+            | cons a r => rw [List.getLast?_cons_cons]; exact hl
+          obtain ⟨s', hd, hg⟩ := delK_leaf cfg rest s v hws (fun y hy => hgood y (by simp [hy])) hlast' hrest hget hv
+          refine ⟨segPut kvs m (.node s'), by rw [hd], ?_⟩
+          rw [getK, segGet_segPut kvs m _ _ hs]
+          simp [hrest, hg]
+
+
+theorem takeWhile_all {α} (p : α → Bool) : ∀ (l : List α), (∀ x ∈ l, p x = true) → l.takeWhile p = l
+  | [], _ => rfl
+  | x :: l, h => by
+    simp only [List.takeWhile, h x (by simp)]
+    rw [takeWhile_all p l (fun y hy => h y (by simp [hy]))]
+
+theorem beforeBracket_plain (m : Name) (h : '[' ∉ m) : beforeBracket m = m := by
+  unfold beforeBracket
+  apply takeWhile_all
+  intro x hx
+  have : x ≠ '[' := fun e => h (e ▸ hx)
+  simpa using this
+
+theorem parseSeg_name {m n : Name} {is : List Int} (h : parseSeg m = some (n, is)) : n = beforeBracket m := by
+  unfold parseSeg at h
+  split at h
+  · simp only [Option.map_eq_some_iff, Prod.mk.injEq] at h
+    obtain ⟨_, _, hn, _⟩ := h
+    exact hn.symm
+  · simp at h
+
+theorem lookupK_segPut_other (kvs : Kvs) (m k : Name) (new : Tree) (h : k ≠ beforeBracket m) :
+    lookupK k (segPut kvs m new) = lookupK k kvs := by
+  unfold segPut
+  split
+  · split
+    · rfl
+    · rename_i name is hp
+      have := parseSeg_name hp
+      subst this
+      split
+      · rfl
+      · exact lookupK_insertK_other _ _ _ _ h
+  · rename_i hb
+    rw [beforeBracket_plain m hb] at h
+    unfold replaceK
+    split
+    · exact lookupK_insertK_other _ _ _ _ h
+    · rfl
+
+/-- an assignment through `m` touches only the entry `m` is based on -/
+theorem lookupK_setK_other (cfg : Cfg) (kvs : Kvs) (m : Name) (ps : List Name) (fin : Option Err)
+    (cv : Except Err Tree) (k : Name) (h : k ≠ beforeBracket m)
+    (hm : '[' ∈ m → m.getLast? = some ']') :
+    lookupK k (setK cfg kvs (m :: ps) fin cv).1 = lookupK k kvs := by
+  have h2 : '[' ∉ m → k ≠ m := fun hb => by rw [beforeBracket_plain m hb] at h; exact h
+  unfold setK
+  repeat' (first
+    | rfl
+    | exact lookupK_segPut_other _ _ _ _ h
+    | exact lookupK_insertK_other _ _ _ _ h
+    | exact lookupK_insertK_other _ _ _ _ (h2 ‹_›)
+    | exact lookupK_insertK_other _ _ _ _ (h2 (fun h1 => ‹¬ ('[' ∈ m ∧ m.getLast? = some ']')› ⟨h1, hm h1⟩))
+    | split)
+
+theorem segGet_congr (kvs kvs' : Kvs) (m : Name)
+    (h : lookupK (beforeBracket m) kvs' = lookupK (beforeBracket m) kvs) : segGet kvs' m = segGet kvs m := by
+  unfold segGet
+  split
+  · unfold evalSeg
+    split
+    · rfl
+    · rename_i name is hp
+      rw [parseSeg_name hp, h]
+  · rename_i hb
+    rw [beforeBracket_plain m hb] at h
+    rw [h]
+
+theorem getK_congr_head (kvs kvs' : Kvs) (m : Name) (rest : List Name) (fin : Option Err)
+    (h : segGet kvs' m = segGet kvs m) : getK kvs' (m :: rest) fin = getK kvs (m :: rest) fin := by
+  rw [getK, getK, h]
+
+theorem restTruthy_of_good (ps : List Name) (fin : Option Err) (hne : ps ≠ [])
+    (hg : ∀ m ∈ ps, GoodSeg m = true) : restTruthy ps fin = true := by
+  unfold restTruthy
+  cases ps with
+  | nil => exact absurd rfl hne
+  | cons a r =>
+    have := goodSeg_ne (hg a (by simp))
+    simp [this]
+
+/-- the first level of an assignment that has to descend: nothing happens, or the sub-level `m`
+denotes is replaced by its updated version, or a new level `m` is created -/
+theorem setK_descend (cfg : Cfg) (kvs : Kvs) (m : Name) (ps : List Name) (fin : Option Err)
+    (cv : Except Err Tree) (hr : restTruthy ps fin = true) :
+    (setK cfg kvs (m :: ps) fin cv).1 = kvs ∨
+    (∃ sub, segGet kvs m = .ok (.node sub) ∧
+      (setK cfg kvs (m :: ps) fin cv).1 = segPut kvs m (.node (setK cfg sub ps fin cv).1)) ∨
+    ('[' ∉ m ∧ lookupK m kvs = none ∧
+      (setK cfg kvs (m :: ps) fin cv).1 = insertK m (.node (setK cfg [] ps fin cv).1) kvs) := by
+  rw [setK.eq_def]
+  simp only [hr, if_true]
+  by_cases hb : '[' ∈ m
+  · simp only [hb, if_true]
+    cases he : evalSeg kvs m with
+    | error e => left; rfl
+    | ok t =>
+      cases t with
+      | leaf _ => left; rfl
+      | list _ => left; rfl
+      | node sub =>
+        right; left
+        refine ⟨sub, by simp [segGet, hb, he], ?_⟩
+        simp only
+  · simp only [hb, if_false]
+    split
+    · left; rfl
+    · cases hl : lookupK m kvs with
+      | none => right; right; exact ⟨by simp, rfl, by simp only⟩
+      | some t =>
+        cases t with
+        | leaf _ => left; rfl
+        | list _ => left; rfl
+        | node sub =>
+          right; left
+          refine ⟨sub, by simp [segGet, hb, hl], ?_⟩
+          simp only [segPut, hb, if_false, replaceK, hl, Option.isSome_some, if_true]
+
+/-- two paths that part ways at an entry of some level -/
+inductive Indep : List Name → List Name → Prop
+  | head {m m' : Name} {ps qs : List Name} : beforeBracket m ≠ beforeBracket m' → Indep (m :: ps) (m' :: qs)
+  | tail {m : Name} {ps qs : List Name} : Indep ps qs → Indep (m :: ps) (m :: qs)
+
+theorem Indep.ne_nil {p q : List Name} (h : Indep p q) : p ≠ [] ∧ q ≠ [] := by
+  cases h <;> simp
+
+theorem getK_nil_not_ok (q : List Name) (hq : q ≠ []) (v : Tree) : getK [] q none ≠ .ok v := by
+  cases q with
+  | nil => exact absurd rfl hq
+  | cons a r =>
+    rw [getK]
+    have : ∀ m, ∃ e, segGet [] m = .error e := by
+      intro m
+      unfold segGet
+      split
+      · unfold evalSeg
+        split
+        · exact ⟨_, rfl⟩
+        · exact ⟨_, rfl⟩
+      · exact ⟨_, rfl⟩
+    obtain ⟨e, he⟩ := this a
+    simp [he]
+
+/-- **An assignment does not disturb an independent path**: whatever the assignment at `p` does
+(including failing half-way), looking up `q` gives the same answer as before. -/
+theorem getK_setK_indep (cfg : Cfg) {p q : List Name} (h : Indep p q) :
+    ∀ (kvs : Kvs) (fin : Option Err) (cv : Except Err Tree) (v : Tree),
+    (∀ m ∈ p, GoodSeg m = true) →
+    (getK (setK cfg kvs p fin cv).1 q none = .ok v ↔ getK kvs q none = .ok v) := by
+  induction h with
+  | @head m m' ps qs hne =>
+    intro kvs fin cv v hp
+    have hgm := hp m (by simp)
+    have hm : '[' ∈ m → m.getLast? = some ']' := by
+      intro hb
+      have : ¬'.' ∈ m ∧ (parseSeg m).isSome = true ∧ m.getLast? = some ']' := by
+        simpa [GoodSeg, hb, goodSeg_ne hgm] using hgm
+      exact this.2.2
+    rw [getK_congr_head _ _ _ _ _ (segGet_congr _ _ _
+      (lookupK_setK_other cfg kvs m ps fin cv _ (fun e => hne e.symm) hm))]
+  | @tail m ps qs hi ih =>
+    intro kvs fin cv v hp
+    have hps : ∀ x ∈ ps, GoodSeg x = true := fun x hx => hp x (by simp [hx])
+    have hr := restTruthy_of_good ps fin hi.ne_nil.1 hps
+    have hq : qs ≠ [] := hi.ne_nil.2
+    rcases setK_descend cfg kvs m ps fin cv hr with h0 | ⟨sub, hs, h1⟩ | ⟨hb, hl, h2⟩
+    · rw [h0]
+    · rw [h1, getK, getK, segGet_segPut kvs m _ _ hs, hs]
+      simp only [hq, false_and, if_false]
+      exact ih sub fin cv v hps
+    · rw [h2, getK, getK]
+      simp only [segGet, hb, if_false, lookupK_insertK_same, hl, hq, false_and]
+      constructor
+      · intro hg
+        exact absurd ((ih [] fin cv v hps).mp hg) (getK_nil_not_ok qs hi.ne_nil.2 v)
+      · intro hg; simp at hg
+
+
+theorem insertK_absent (k : Name) (v : Tree) (kvs : Kvs) (h : lookupK k kvs = none) :
+    insertK k v kvs = kvs ++ [(k, v)] := by
+  induction kvs with
+  | nil => rfl
+  | cons hd tl ih =>
+    obtain ⟨k', v'⟩ := hd
+    by_cases hk : k = k'
+    · subst hk; simp [lookupK] at h
+    · simp only [lookupK, hk, if_false] at h
+      simp [insertK, hk, ih h]
+
+/-- a raw key that the constructor re-inserts unchanged: no dot, no bracket, not reserved -/
+def CopyKey (cfg : Cfg) (k : Name) : Bool :=
+  !(decide ('.' ∈ k)) && !(decide ('[' ∈ k)) && !(isReserved cfg k)
+
+theorem setK_single (cfg : Cfg) (acc : Kvs) (k : Name) (v : Tree) (hk : CopyKey cfg k = true) :
+    setK cfg acc [k] none (.ok v) = (insertK k v acc, none) := by
+  have h : '.' ∉ k ∧ '[' ∉ k ∧ isReserved cfg k = false := by
+    simpa [CopyKey, and_assoc] using hk
+  rw [setK]
+  simp [restTruthy, h.2.1, h.2.2]
+
+theorem buildK_ok (cfg : Cfg) : ∀ (kvs acc : Kvs), (∀ p ∈ kvs, CopyKey cfg p.1 = true) →
+    (keysK (acc ++ kvs)).Nodup → buildK cfg kvs acc = .ok (.node (acc ++ kvs))
+  | [], acc, _, _ => by simp [buildK]
+  | (k, v) :: r, acc, hk, hn => by
+    have hkk := hk (k, v) (by simp)
+    have hdot : '.' ∉ k := by
+      have : '.' ∉ k ∧ '[' ∉ k ∧ isReserved cfg k = false := by simpa [CopyKey, and_assoc] using hkk
+      exact this.1
+    have habs : lookupK k acc = none := by
+      rw [lookupK_none_iff]
+      intro hmem
+      simp only [keysK, List.map_append, List.map_cons] at hn hmem
+      have := (List.nodup_append.mp hn).2.2 k hmem k (by simp)
+      exact this rfl
+    simp only [buildK, chain_single _ _ hdot, setK_single cfg acc k v hkk, insertK_absent _ _ _ habs]
+    rw [buildK_ok cfg r (acc ++ [(k, v)]) (fun p hp => hk p (by simp [hp])) (by simpa using hn)]
+    simp
+
+mutual
+theorem copyT_ok (cfg : Cfg) : ∀ (t : Tree), wfT (CopyKey cfg) t = true → copyT cfg t = .ok t
+  | .leaf _, _ => rfl
+  | .node kvs, h => by
+    simp only [wfT] at h
+    simp only [copyT, copyVals_ok cfg kvs h]
+    have hk : ∀ p ∈ kvs, CopyKey cfg p.1 = true := by
+      intro p hp
+      have : ∀ (l : Kvs), wfK (CopyKey cfg) l = true → ∀ p ∈ l, CopyKey cfg p.1 = true := by
+        intro l
+        induction l with
+        | nil => simp
+        | cons hd tl ih =>
+          intro hw q hq
+          obtain ⟨k', v'⟩ := hd
+          obtain ⟨h1, _, _, h4⟩ := wfK_cons.mp hw
+          simp only [List.mem_cons] at hq
+          rcases hq with rfl | hq
+          · exact h1
+          · exact ih h4 q hq
+      exact this kvs h p hp
+    simpa using buildK_ok cfg kvs [] hk (by simpa using wfK_nodup h)
+  | .list xs, h => by
+    simp only [wfT] at h
+    simp only [copyT, copyList_ok cfg xs h]
+    rfl
+theorem copyVals_ok (cfg : Cfg) : ∀ (kvs : Kvs), wfK (CopyKey cfg) kvs = true → copyVals cfg kvs = .ok kvs
+  | [], _ => rfl
+  | (k, v) :: r, h => by
+    obtain ⟨_, _, h3, h4⟩ := wfK_cons.mp h
+    simp [copyVals, copyT_ok cfg v h3, copyVals_ok cfg r h4]
+theorem copyList_ok (cfg : Cfg) : ∀ (xs : List Tree), wfL (CopyKey cfg) xs = true → copyList cfg xs = .ok xs
+  | [], _ => rfl
+  | x :: r, h => by
+    simp only [wfL, Bool.and_eq_true] at h
+    simp [copyList, copyT_ok cfg x h.1, copyList_ok cfg r h.2]
+end
+
 end Cpppo.Dotdict
